@@ -338,3 +338,476 @@ Proof.
   apply (@probe_bound I B t budget HI Hbud n (bucket0 I B) B); try reflexivity; try lia.
   unfold advance, bucket0, max_duration. cbn [b_last b_tokens b_burst]. lia.
 Qed.
+
+(* ======================================================================================
+   Operator level: the queue workers in front of the limiters (C18_Model.advance_q_lim ...).
+
+   Every execution start in the ghost log is preceded by its own limiter call that was
+   granted for that very instant, so the starts of a hook are a subsequence of the grants
+   of ITS limiter over the sorted list of ITS request instants; the window bound of the
+   limiter level carries over to subsequences. *)
+Unset Implicit Arguments.
+
+(* ---- subsequences ---- *)
+Inductive Sub : list Z -> list Z -> Prop :=
+| Sub_nil : forall l, Sub [] l
+| Sub_skip : forall l' x l, Sub l' l -> Sub l' (x :: l)
+| Sub_take : forall x l' l, Sub l' l -> Sub (x :: l') (x :: l).
+
+Lemma Sub_snoc_r l' l x : Sub l' l -> Sub l' (l ++ [x]).
+Proof. intros H. induction H; cbn; constructor; assumption. Qed.
+
+Lemma Sub_snoc l' l x : Sub l' l -> Sub (l' ++ [x]) (l ++ [x]).
+Proof.
+  intros H. induction H as [l|l' y l H IH|y l' l H IH]; cbn.
+  - induction l as [|y l IHl]; cbn; [apply Sub_take, Sub_nil | apply Sub_skip, IHl].
+  - apply Sub_skip, IH.
+  - apply Sub_take, IH.
+Qed.
+
+Lemma count_in_sub s T l' l : Sub l' l -> count_in s T l' <= count_in s T l.
+Proof.
+  unfold count_in. intros H. induction H as [l|l' y l H IH|y l' l H IH]; cbn [filter length].
+  - lia.
+  - destruct (in_window s T y); cbn [length]; lia.
+  - destruct (in_window s T y); cbn [length]; lia.
+Qed.
+
+Lemma respects_limit_sub I B l' l : Sub l' l -> respects_limit I B l -> respects_limit I B l'.
+Proof. intros HS H s T HT. pose proof (count_in_sub s T l' l HS). specialize (H s T HT). lia. Qed.
+
+Lemma from_ok_sub I B x : forall r' r, Sub r' r -> forall k k', k' <= k ->
+  from_ok I B x k r = true -> from_ok I B x k' r' = true.
+Proof.
+  intros r' r H. induction H as [l|l' y l H IH|y l' l H IH]; intros k k' Hk Hf.
+  - reflexivity.
+  - cbn [from_ok] in Hf. apply andb_true_iff in Hf as [_ Hf]. apply (IH (k + 1) k'); [lia | exact Hf].
+  - cbn [from_ok] in Hf |- *. apply andb_true_iff in Hf as [H1 Hf]. apply Z.leb_le in H1.
+    apply andb_true_iff; split; [apply Z.leb_le; lia | apply (IH (k + 1) (k' + 1)); [lia | exact Hf]].
+Qed.
+
+Lemma window_ok_sub I B l' l : Sub l' l -> window_ok I B l = true -> window_ok I B l' = true.
+Proof.
+  intros H. induction H as [l|l' y l H IH|y l' l H IH]; intros Hw.
+  - reflexivity.
+  - cbn [window_ok] in Hw. apply andb_true_iff in Hw as [_ Hw]. exact (IH Hw).
+  - cbn [window_ok] in Hw |- *. apply andb_true_iff in Hw as [H1 Hw].
+    apply andb_true_iff; split; [exact (from_ok_sub I B y l' l H 1 1 ltac:(lia) H1) | exact (IH Hw)].
+Qed.
+
+(* ---- lists of requests growing at the end ---- *)
+Definition bucket_after (b : bucket) (arr : list Z) : bucket :=
+  fold_left (fun b t => fst (reserve b t)) arr b.
+
+Lemma bucket_after_snoc b arr t : bucket_after b (arr ++ [t]) = fst (reserve (bucket_after b arr) t).
+Proof. unfold bucket_after. rewrite fold_left_app. reflexivity. Qed.
+
+Lemma grants_snoc : forall arr b t,
+  grants b (arr ++ [t]) = grants b arr ++ [snd (reserve (bucket_after b arr) t)].
+Proof.
+  induction arr as [|x r IH]; intros b t.
+  - cbn. destruct (reserve b t); reflexivity.
+  - cbn [app grants]. unfold bucket_after. cbn [fold_left].
+    destruct (reserve b x) as [b1 a] eqn:E. cbn [fst]. rewrite IH. reflexivity.
+Qed.
+
+Lemma somes_app A (l1 l2 : list (option A)) : somes (l1 ++ l2) = somes l1 ++ somes l2.
+Proof. induction l1 as [|[x|] r IH]; cbn; [reflexivity | f_equal; exact IH | exact IH]. Qed.
+
+Lemma sortedb_snoc : forall l t, sortedb l = true -> Forall (fun x => x <= t) l -> sortedb (l ++ [t]) = true.
+Proof.
+  induction l as [|x r IH]; intros t Hs Hf; [reflexivity|].
+  inversion Hf as [|? ? Hx Hr]; subst.
+  destruct r as [|y r'].
+  - cbn. apply andb_true_iff; split; [apply Z.leb_le; exact Hx | reflexivity].
+  - apply sortedb_cons in Hs as [Hxy Hs]. specialize (IH t Hs Hr).
+    change (sortedb (x :: y :: (r' ++ [t])) = true). cbn [sortedb].
+    apply andb_true_iff; split; [apply Z.leb_le; exact Hxy | exact IH].
+Qed.
+
+Lemma reserve_ge b t b' a : reserve b t = (b', Some a) -> t <= a.
+Proof.
+  unfold reserve, reserve_n. destruct (b_limit b) as [iv|].
+  - destruct (_ && _); intros H; inversion H; lia.
+  - intros H; inversion H; lia.
+Qed.
+
+(* ---- projections of the log ---- *)
+Lemma reqs_of_app h l1 l2 : reqs_of h (l1 ++ l2) = reqs_of h l1 ++ reqs_of h l2.
+Proof. induction l1 as [|[h' t a|h' q t] r IH]; cbn; [reflexivity | destruct (N.eqb h' h); cbn; [f_equal|]; exact IH | exact IH]. Qed.
+Lemma acts_of_app h l1 l2 : acts_of h (l1 ++ l2) = acts_of h l1 ++ acts_of h l2.
+Proof. induction l1 as [|[h' t a|h' q t] r IH]; cbn; [reflexivity | destruct (N.eqb h' h); cbn; [f_equal|]; exact IH | exact IH]. Qed.
+Lemma starts_in_app h l1 l2 : starts_in h (l1 ++ l2) = starts_in h l1 ++ starts_in h l2.
+Proof. induction l1 as [|[h' t a|h' q t] r IH]; cbn; [reflexivity | exact IH | destruct (N.eqb h' h); cbn; [f_equal|]; exact IH]. Qed.
+
+(* ---- a generic invariant of the workers: closed under "a limiter call" and under
+        "a limiter call granted for now, then the start of the execution" ---- *)
+Section Generic.
+  Variable Q : Z -> limiters -> list levent -> Prop.
+  Variable R : Z -> Z -> Prop.      (* how time may move from one action to the next *)
+  Hypothesis Q_time : forall now now' lims log, R now now' -> Q now lims log -> Q now' lims log.
+  Hypothesis Q_req : forall now lims log h' b' a,
+    Q now lims log -> reserve (lims h') now = (b', a) ->
+    Q now (set_lim lims h' b') (log ++ [LReq h' now a]).
+  Hypothesis Q_start : forall now lims log h' b' q,
+    Q now lims log -> reserve (lims h') now = (b', Some now) ->
+    Q now (set_lim lims h' b') ((log ++ [LReq h' now (Some now)]) ++ [LStart h' q now]).
+
+  Lemma advance_q_lim_Q cfg qok now qn : forall fuel items w items' st w',
+    Q now (w_lims w) (w_log w) ->
+    advance_q_lim fuel cfg qok now qn items w = (items', st, w') ->
+    Q now (w_lims w') (w_log w').
+  Proof.
+    induction fuel as [|fuel IH]; intros items w items' st w' HQ H.
+    - cbn in H. inversion H; subst. exact HQ.
+    - cbn [advance_q_lim] in H. destruct items as [|t rest]; [inversion H; subst; exact HQ|].
+      destruct (t_type t).
+      + (* HookRun *)
+        destruct (reserve (w_lims w (t_hook t)) now) as [b' a] eqn:Er.
+        pose proof (Q_req now _ _ (t_hook t) b' a HQ Er) as H1.
+        destruct a as [act|]; [|inversion H; subst; exact H1].
+        destruct (now <? act) eqn:El; [inversion H; subst; exact H1|].
+        assert (Ea : act = now).
+        { apply Z.ltb_ge in El. pose proof (reserve_ge _ _ _ _ Er). lia. }
+        subst act.
+        destruct (should_run _ t).
+        * pose proof (Q_start now _ _ (t_hook t) b' qn HQ Er) as H2.
+          cbn [w_sh w_lims w_log] in H.
+          destruct (negb _ && should_combine t && qok (t_queue t)).
+          -- destruct (combine t rest). inversion H; subst. exact H2.
+          -- inversion H; subst. exact H2.
+        * eapply IH; [|exact H]. exact H1.
+      + (* EnableKube *)
+        destruct (find_hook cfg (t_hook t)); eapply IH; try exact H; exact HQ.
+      + (* EnableSched *)
+        eapply IH; [|exact H]. exact HQ.
+  Qed.
+
+  Lemma advance_all_lim_Q cfg qok now : forall qs wt w qs' wt' w',
+    Q now (w_lims w) (w_log w) ->
+    advance_all_lim cfg qok now wt qs w = (qs', wt', w') ->
+    Q now (w_lims w') (w_log w').
+  Proof.
+    induction qs as [|q r IH]; intros wt w qs' wt' w' HQ H.
+    - cbn in H. inversion H; subst. exact HQ.
+    - cbn [advance_all_lim] in H. destruct (is_running q || is_waiting wt (q_name q)).
+      + destruct (advance_all_lim cfg qok now wt r w) as [[r1 wt1] w1] eqn:E.
+        inversion H; subst. exact (IH _ _ _ _ _ HQ E).
+      + destruct (advance_q_lim _ cfg qok now (q_name q) (q_items q) w) as [[items st] w1] eqn:E1.
+        destruct (advance_all_lim cfg qok now (wt ++ wait_of (q_name q) st) r w1) as [[r1 wt1] w2] eqn:E2.
+        inversion H; subst.
+        exact (IH _ _ _ _ _ (advance_q_lim_Q _ _ _ _ _ _ _ _ _ _ HQ E1) E2).
+  Qed.
+
+  Lemma step_lim_Q cfg ls ta now :
+    Q now (l_lims ls) (l_log ls) -> R now (fst ta) ->
+    Q (fst ta) (l_lims (step_lim cfg ls ta)) (l_log (step_lim cfg ls ta)).
+  Proof.
+    intros HQ Ht. apply (Q_time _ _ _ _ Ht) in HQ.
+    unfold step_lim, advance_lim. cbn [l_op l_waiting l_lims l_log l_overrun].
+    destruct (stopped _); [exact HQ|].
+    destruct (advance_all_lim _ _ _ _ _ _) as [[qs wt] w] eqn:E. cbn [l_lims l_log].
+    eapply advance_all_lim_Q; [|exact E]. exact HQ.
+  Qed.
+
+  Fixpoint chain (now : Z) (l : list Z) : Prop :=
+    match l with [] => True | t :: r => R now t /\ chain t r end.
+
+  Lemma run_lim_Q cfg : forall script ls now,
+    Q now (l_lims ls) (l_log ls) -> chain now (map fst script) ->
+    exists now', Q now' (l_lims (run_lim cfg ls script)) (l_log (run_lim cfg ls script)).
+  Proof.
+    induction script as [|ta r IH]; intros ls now HQ Hc.
+    - exists now. exact HQ.
+    - cbn [map chain] in Hc. destruct Hc as [Ht Hc]. cbn [run_lim fold_left].
+      apply (IH (step_lim cfg ls ta) (fst ta)); [apply (step_lim_Q cfg ls ta now HQ Ht) | exact Hc].
+  Qed.
+End Generic.
+
+(* ---- the invariant of one hook's limiter ---- *)
+Definition hinv (b0 : bucket) (h : N) (now : Z) (lims : limiters) (log : list levent) : Prop :=
+  lims h = bucket_after b0 (reqs_of h log) /\
+  acts_of h log = grants b0 (reqs_of h log) /\
+  Forall (fun t => t <= now) (reqs_of h log) /\
+  sortedb (reqs_of h log) = true /\
+  Sub (starts_in h log) (somes (acts_of h log)).
+
+Lemma set_lim_same lims h b : set_lim lims h b h = b.
+Proof. unfold set_lim. rewrite N.eqb_refl. reflexivity. Qed.
+Lemma set_lim_other lims h h' b : h' <> h -> set_lim lims h' b h = lims h.
+Proof. unfold set_lim. intros Hn. destruct (N.eqb_spec h h'); [congruence | reflexivity]. Qed.
+
+Lemma hinv_time b0 h now now' lims log : now <= now' -> hinv b0 h now lims log -> hinv b0 h now' lims log.
+Proof.
+  intros Hle (H1 & H2 & H3 & H4 & H5). repeat split; try assumption.
+  eapply Forall_impl; [|exact H3]. cbn. intros; lia.
+Qed.
+
+Lemma hinv_req b0 h now lims log h' b' a :
+  hinv b0 h now lims log -> reserve (lims h') now = (b', a) ->
+  hinv b0 h now (set_lim lims h' b') (log ++ [LReq h' now a]).
+Proof.
+  intros (H1 & H2 & H3 & H4 & H5) Er. unfold hinv.
+  rewrite reqs_of_app, acts_of_app, starts_in_app. cbn [reqs_of acts_of starts_in].
+  destruct (N.eqb_spec h' h) as [E|Hn].
+  - subst h'. rewrite set_lim_same, bucket_after_snoc, grants_snoc, <- H1, Er. cbn [fst snd].
+    rewrite app_nil_r, somes_app. repeat split.
+    + rewrite H2. reflexivity.
+    + apply Forall_app; split; [exact H3 | constructor; [lia | constructor]].
+    + apply sortedb_snoc; assumption.
+    + destruct a as [x|]; cbn [somes]; [apply Sub_snoc_r; exact H5 | rewrite app_nil_r; exact H5].
+  - rewrite (set_lim_other _ _ _ _ Hn), !app_nil_r. repeat split; assumption.
+Qed.
+
+Lemma hinv_start b0 h now lims log h' b' q :
+  hinv b0 h now lims log -> reserve (lims h') now = (b', Some now) ->
+  hinv b0 h now (set_lim lims h' b') ((log ++ [LReq h' now (Some now)]) ++ [LStart h' q now]).
+Proof.
+  intros (H1 & H2 & H3 & H4 & H5) Er. unfold hinv.
+  rewrite !reqs_of_app, !acts_of_app, !starts_in_app. cbn [reqs_of acts_of starts_in].
+  destruct (N.eqb_spec h' h) as [E|Hn].
+  - subst h'. rewrite set_lim_same, !app_nil_r, bucket_after_snoc, grants_snoc, <- H1, Er. cbn [fst snd].
+    rewrite somes_app. cbn [somes]. repeat split.
+    + rewrite H2. reflexivity.
+    + apply Forall_app; split; [exact H3 | constructor; [lia | constructor]].
+    + apply sortedb_snoc; assumption.
+    + apply Sub_snoc; exact H5.
+  - rewrite (set_lim_other _ _ _ _ Hn), !app_nil_r. repeat split; assumption.
+Qed.
+
+Lemma hinv_init hs h now : hinv (init_limiters hs h) h now (init_limiters hs) [].
+Proof. unfold hinv. cbn. repeat split; constructor. Qed.
+
+Lemma chain_le_of_sorted : forall l now, sortedb (now :: l) = true -> chain Z.le now l.
+Proof.
+  induction l as [|t r IH]; intros now Hs; [exact I|].
+  apply sortedb_cons in Hs as [Hle Hs]. split; [exact Hle | exact (IH t Hs)].
+Qed.
+
+Lemma chain_any : forall l now, chain (fun _ _ => True) now l.
+Proof. induction l as [|t r IH]; intros now; cbn; auto. Qed.
+
+Definition final_log (cfg : config) (hs : hook_settings) (script : list (Z * action)) : list levent :=
+  l_log (run_lim cfg (init_lim hs) script).
+
+Lemma op_hinv cfg hs script h : sortedb (map fst script) = true ->
+  exists now, hinv (init_limiters hs h) h now
+                   (l_lims (run_lim cfg (init_lim hs) script)) (final_log cfg hs script).
+Proof.
+  intros Hs. unfold final_log.
+  set (now0 := match map fst script with [] => 0 | t :: _ => t end).
+  apply (run_lim_Q (hinv (init_limiters hs h) h) Z.le) with (now := now0).
+  - intros now now' lims log. apply hinv_time.
+  - intros now lims log h' b' a. apply hinv_req.
+  - intros now lims log h' b' q. apply hinv_start.
+  - apply hinv_init.
+  - apply chain_le_of_sorted. subst now0. destruct (map fst script) as [|t r]; [reflexivity|].
+    apply sortedb_dup. exact Hs.
+Qed.
+
+(* every start of a hook's execution is one of the grants of its limiter *)
+Lemma op_starts_are_grants cfg hs script h : sortedb (map fst script) = true ->
+  let log := final_log cfg hs script in
+  sortedb (reqs_of h log) = true /\
+  acts_of h log = grants (create_rate_limiter (settings_of hs h)) (reqs_of h log) /\
+  Sub (starts_in h log) (somes (acts_of h log)).
+Proof.
+  intros Hs. cbv zeta. destruct (op_hinv cfg hs script h Hs) as (now & _ & H2 & _ & H4 & H5).
+  repeat split; assumption.
+Qed.
+
+Lemma op_respects_limit cfg hs script h I B :
+  settings_of hs h = Some (mkSettings I B) -> 0 < I -> 1 <= B -> sortedb (map fst script) = true ->
+  respects_limit I B (starts_in h (final_log cfg hs script)).
+Proof.
+  intros Hset HI HB Hs. destruct (op_starts_are_grants cfg hs script h Hs) as (H4 & H2 & H5).
+  rewrite Hset in H2. eapply respects_limit_sub; [exact H5|]. rewrite H2.
+  apply (@respects_limit_model I B _ HI HB H4).
+Qed.
+
+(* ---- hooks without settings: time plays no role ---- *)
+Definition uinv (h : N) (_ : Z) (lims : limiters) (log : list levent) : Prop :=
+  b_limit (lims h) = None /\ acts_of h log = map Some (reqs_of h log).
+
+Lemma reserve_inf b t : b_limit b = None -> reserve b t = (b, Some t).
+Proof. intros H. unfold reserve, reserve_n. rewrite H. reflexivity. Qed.
+
+Lemma uinv_req h now lims log h' b' a :
+  uinv h now lims log -> reserve (lims h') now = (b', a) ->
+  uinv h now (set_lim lims h' b') (log ++ [LReq h' now a]).
+Proof.
+  intros (H1 & H2) Er. unfold uinv. rewrite reqs_of_app, acts_of_app. cbn [reqs_of acts_of].
+  destruct (N.eqb_spec h' h) as [E|Hn].
+  - subst h'. rewrite (reserve_inf _ now H1) in Er. inversion Er; subst.
+    rewrite set_lim_same, map_app, H2. split; [exact H1 | reflexivity].
+  - rewrite (set_lim_other _ _ _ _ Hn), !app_nil_r. split; assumption.
+Qed.
+
+Lemma uinv_start h now lims log h' b' q :
+  uinv h now lims log -> reserve (lims h') now = (b', Some now) ->
+  uinv h now (set_lim lims h' b') ((log ++ [LReq h' now (Some now)]) ++ [LStart h' q now]).
+Proof.
+  intros H Er. destruct (uinv_req h now lims log h' b' (Some now) H Er) as (H1 & H2).
+  unfold uinv. rewrite reqs_of_app, acts_of_app. cbn [reqs_of acts_of]. rewrite !app_nil_r.
+  split; assumption.
+Qed.
+
+Lemma not_throttled_of_acts h : forall log,
+  acts_of h log = map Some (reqs_of h log) -> ~ In h (throttled_in log).
+Proof.
+  induction log as [|[h' t a|h' q t] r IH]; cbn [acts_of reqs_of throttled_in]; intros He Hin.
+  - exact Hin.
+  - destruct (N.eqb_spec h' h) as [E|Hn].
+    + cbn [map] in He. inversion He as [[Ha Hr]]. subst a. rewrite Z.eqb_refl in Hin. exact (IH Hr Hin).
+    + destruct a as [x|]; [destruct (x =? t)|]; try exact (IH He Hin);
+        destruct Hin as [Hh|Hin]; try (apply Hn; exact Hh); exact (IH He Hin).
+  - exact (IH He Hin).
+Qed.
+
+Lemma op_unlimited_acts cfg hs script h :
+  b_limit (init_limiters hs h) = None ->
+  let log := final_log cfg hs script in acts_of h log = map Some (reqs_of h log).
+Proof.
+  intros Hb. cbv zeta. unfold final_log.
+  destruct (run_lim_Q (uinv h) (fun _ _ => True)) with (cfg := cfg) (script := script) (ls := init_lim hs) (now := 0)
+    as (now & _ & H2).
+  - intros now now' lims log _ H. exact H.
+  - intros now lims log h' b' a. apply uinv_req.
+  - intros now lims log h' b' q. apply uinv_start.
+  - split; [exact Hb | reflexivity].
+  - apply chain_any.
+  - exact H2.
+Qed.
+
+Lemma op_not_throttled cfg hs script h :
+  settings_of hs h = None -> ~ In h (throttled_in (final_log cfg hs script)).
+Proof.
+  intros Hset. apply not_throttled_of_acts. apply op_unlimited_acts.
+  unfold init_limiters. rewrite Hset. reflexivity.
+Qed.
+
+(* ---- the decidable predicate on the model's own log ---- *)
+Lemma starts_of_all h : forall log, starts_of h (starts_all log) = starts_in h log.
+Proof.
+  unfold starts_of. induction log as [|[h' t a|h' q t] r IH]; cbn [starts_all starts_in]; try exact IH; [reflexivity|].
+  cbn [filter fst]. destruct (N.eqb h' h); cbn [map snd]; [f_equal|]; exact IH.
+Qed.
+
+Lemma op_P_holds cfg hs script : sortedb (map fst script) = true ->
+  let log := final_log cfg hs script in
+  P_op hs (starts_all log) (throttled_in log) = true.
+Proof.
+  intros Hs. cbv zeta. unfold P_op. apply forallb_forall. intros h _.
+  rewrite starts_of_all. unfold P_hook.
+  destruct (settings_of hs h) as [[I B]|] eqn:Hset.
+  - cbn [s_interval s_burst].
+    destruct (Z.ltb_spec 0 I) as [HI|_]; [|reflexivity].
+    destruct (Z.leb_spec 1 B) as [HB|_]; [|reflexivity].
+    cbn [andb].
+    destruct (op_starts_are_grants cfg hs script h Hs) as (H4 & H2 & H5).
+    apply (window_ok_sub I B _ _ H5). rewrite H2, Hset.
+    pose proof (@spec_holds (Some (mkSettings I B)) _ H4) as HP.
+    unfold P in HP. cbn [s_interval s_burst] in HP. rewrite H4 in HP.
+    destruct (Z.ltb_spec 0 I) as [_|]; [|lia]. destruct (Z.leb_spec 1 B) as [_|]; [|lia].
+    exact HP.
+  - apply negb_true_iff. destruct (mem_N h (throttled_in (final_log cfg hs script))) eqn:Em; [|reflexivity].
+    apply mem_N_In in Em. exfalso. exact (op_not_throttled cfg hs script h Hset Em).
+Qed.
+
+(* ---- without any limit the workers are exactly those of the plain task-flow model ---- *)
+Definition all_unlimited (lims : limiters) : Prop := forall h, b_limit (lims h) = None.
+
+Lemma all_unlimited_set lims h : all_unlimited lims -> all_unlimited (set_lim lims h (lims h)).
+Proof. intros H x. unfold set_lim. destruct (N.eqb x h); apply H. Qed.
+
+Lemma advance_q_lim_unlimited cfg qok now qn : forall fuel items w,
+  all_unlimited (w_lims w) ->
+  exists st w', advance_q_lim fuel cfg qok now qn items w =
+                  (fst (fst (advance_q fuel cfg qok items (w_sh w))), st, w') /\
+                run_of st = snd (fst (advance_q fuel cfg qok items (w_sh w))) /\
+                wait_of qn st = [] /\
+                w_sh w' = snd (advance_q fuel cfg qok items (w_sh w)) /\
+                all_unlimited (w_lims w').
+Proof.
+  induction fuel as [|fuel IH]; intros items w Hu.
+  - exists WFree, w. cbn. repeat split; auto.
+  - cbn [advance_q_lim advance_q]. destruct items as [|t rest].
+    + exists WFree, w. cbn. repeat split; auto.
+    + destruct (t_type t).
+      * rewrite (reserve_inf _ now (Hu (t_hook t))). rewrite Z.ltb_irrefl.
+        cbn [w_sh w_lims w_log].
+        destruct (should_run _ t).
+        -- destruct (negb _ && should_combine t && qok (t_queue t)).
+           ++ destruct (combine t rest) as [t' rest']. eexists. eexists. split; [reflexivity|].
+              cbn. repeat split; auto. apply all_unlimited_set; exact Hu.
+           ++ eexists. eexists. split; [reflexivity|].
+              cbn. repeat split; auto. apply all_unlimited_set; exact Hu.
+        -- match goal with |- context [advance_q_lim fuel cfg qok now qn rest ?w1] =>
+             destruct (IH rest w1 (all_unlimited_set _ _ Hu)) as (st & w' & H1 & H2 & H3 & H4 & H5) end.
+           exists st, w'. cbn [w_sh] in *. repeat split; assumption.
+      * destruct (find_hook cfg (t_hook t)) as [h|].
+        -- match goal with |- context [advance_q_lim fuel cfg qok now qn ?it ?w1] =>
+             destruct (IH it w1 Hu) as (st & w' & H1 & H2 & H3 & H4 & H5) end.
+           exists st, w'. cbn [w_sh] in *. repeat split; assumption.
+        -- destruct (IH rest w Hu) as (st & w' & H1 & H2 & H3 & H4 & H5).
+           exists st, w'. repeat split; assumption.
+      * match goal with |- context [advance_q_lim fuel cfg qok now qn rest ?w1] =>
+          destruct (IH rest w1 Hu) as (st & w' & H1 & H2 & H3 & H4 & H5) end.
+        exists st, w'. cbn [w_sh] in *. repeat split; assumption.
+Qed.
+
+Lemma advance_all_lim_unlimited cfg qok now : forall qs w,
+  all_unlimited (w_lims w) ->
+  exists w', advance_all_lim cfg qok now [] qs w = (fst (advance_all cfg qok qs (w_sh w)), [], w') /\
+             w_sh w' = snd (advance_all cfg qok qs (w_sh w)) /\ all_unlimited (w_lims w').
+Proof.
+  induction qs as [|q r IH]; intros w Hu.
+  - exists w. cbn. repeat split; auto.
+  - cbn [advance_all_lim advance_all is_waiting existsb]. rewrite orb_false_r.
+    destruct (is_running q).
+    + destruct (IH w Hu) as (w' & H1 & H2 & H3). rewrite H1.
+      destruct (advance_all cfg qok r (w_sh w)) as [r' sh'] eqn:E. cbn [fst snd] in *.
+      exists w'. repeat split; assumption.
+    + destruct (advance_q_lim_unlimited cfg qok now (q_name q) (fuel_for cfg (q_items q)) (q_items q) w Hu)
+        as (st & w1 & H1 & H2 & H3 & H4 & H5).
+      rewrite H1, H3. cbn [app].
+      destruct (advance_q (fuel_for cfg (q_items q)) cfg qok (q_items q) (w_sh w)) as [[items run] sh1] eqn:E1.
+      cbn [fst snd] in *.
+      destruct (IH w1 H5) as (w' & G1 & G2 & G3). rewrite G1, H4, H2.
+      destruct (advance_all cfg qok r sh1) as [r' sh'] eqn:E2. cbn [fst snd] in *.
+      exists w'. rewrite H4, E2 in G2. cbn [snd] in G2. repeat split; assumption.
+Qed.
+
+Lemma step_is_pre_advance cfg s a : step cfg s a = op_advance cfg (pre_step cfg s a).
+Proof. reflexivity. Qed.
+
+Lemma step_lim_unlimited cfg ls ta :
+  all_unlimited (l_lims ls) -> l_waiting ls = [] ->
+  l_op (step_lim cfg ls ta) = step cfg (l_op ls) (snd ta) /\
+  l_waiting (step_lim cfg ls ta) = [] /\ all_unlimited (l_lims (step_lim cfg ls ta)).
+Proof.
+  intros Hu Hw. rewrite step_is_pre_advance. unfold step_lim, advance_lim, op_advance.
+  cbn [l_op l_waiting l_lims l_log l_overrun]. rewrite Hw.
+  destruct (stopped (pre_step cfg (l_op ls) (snd ta))); [cbn; repeat split; auto|].
+  match goal with |- context [advance_all_lim cfg ?qok (fst ta) [] ?qs ?w] =>
+    destruct (advance_all_lim_unlimited cfg qok (fst ta) qs w Hu) as (w' & H1 & H2 & H3) end.
+  rewrite H1. cbn [w_sh] in *.
+  destruct (advance_all _ _ _ _) as [qs' sh'] eqn:E. cbn [fst snd l_op l_waiting l_lims] in *.
+  rewrite H2. repeat split; auto.
+Qed.
+
+Lemma op_unlimited_is_plain_operator cfg hs : forall script,
+  all_unlimited (init_limiters hs) ->
+  l_op (run_lim cfg (init_lim hs) script) = exec cfg (map snd script) init /\
+  l_waiting (run_lim cfg (init_lim hs) script) = [].
+Proof.
+  intros script Hu.
+  assert (G : forall script ls, all_unlimited (l_lims ls) -> l_waiting ls = [] ->
+              l_op (run_lim cfg ls script) = exec cfg (map snd script) (l_op ls) /\
+              l_waiting (run_lim cfg ls script) = []).
+  { clear. induction script as [|ta r IH]; intros ls Hu Hw; [split; [reflexivity | exact Hw]|].
+    destruct (step_lim_unlimited cfg ls ta Hu Hw) as (H1 & H2 & H3).
+    cbn [run_lim fold_left map exec]. unfold run_lim, exec in IH.
+    destruct (IH (step_lim cfg ls ta) H3 H2) as [G1 G2]. rewrite G1, H1. split; [reflexivity | exact G2]. }
+  apply (G script (init_lim hs) Hu eq_refl).
+Qed.
